@@ -446,12 +446,22 @@ impl State {
     // a file that an earlier run has written within the same timestamp.
     fn infix_for_direct_start(&self, ts: &DateTime<Local>, fmt: &InfixFormat) -> String {
         let infix = infix_from_timestamp(ts, self.config.use_utc, fmt);
+        // the infix that a new file with this timestamp would get
+        let next_infix = self
+            .config
+            .file_spec
+            .collision_free_infix_for_rotated_file(&infix);
         if self.config.append {
-            infix
+            // we continue with the newest existing file, which can be a restart-file
+            match next_infix
+                .rsplit_once(".restart-")
+                .and_then(|(_, number)| number.parse::<usize>().ok())
+            {
+                Some(number) if number > 0 => format!("{infix}.restart-{:04}", number - 1),
+                _ => infix,
+            }
         } else {
-            self.config
-                .file_spec
-                .collision_free_infix_for_rotated_file(&infix)
+            next_infix
         }
     }
 
